@@ -1,13 +1,32 @@
 (* C18 (the part a model can carry): several reader threads over one shared graph.  A configuration is the shared graph value and, per
    thread, the rest of its script of const calls and the results it has obtained so far; a schedule is any list of thread ids.  Every
    const entry point is a function of the graph value, so for EVERY schedule each thread obtains exactly its single-threaded results and
-   the shared graph is unchanged.  The memory-level claim (no data race) is outside the model: it is exhibited by ThreadSanitizer runs. *)
+   the shared graph is unchanged.  The semantics is generic in the graph type, the set of const entry points and what they return; it is
+   instantiated for the labelled classes (eval) and for the multigraph / weighted classes (eval_m).
+   The memory-level claim (no data race) is outside the model: it is exhibited by ThreadSanitizer runs. *)
 From Coq Require Import List Arith ZArith Lia Bool.
-From BG Require Import Base DirectedModel UndirectedModel ConvModel TopologyModel PathsModel PathsCases IOModel IOCases.
+From BG Require Import Base DirectedModel UndirectedModel MultiModel WeightedModel ConvModel TopologyModel PathsModel PathsCases IOModel IOCases.
 Import ListNotations.
 Local Open Scope Z_scope.
 
-Section Conc.
+Section Generic.
+Context {G R Q : Type}.
+Variable evalf : G -> Q -> R.       (* what a const call returns on a graph value *)
+Record thread := { script : list Q; results : list R }.
+Record config := { shared : G; threads : list thread }.
+Fixpoint upd_thread (i : nat) (f : thread -> thread) (l : list thread) : list thread :=
+  match l, i with [], _ => [] | t :: r, O => f t :: r | t :: r, S i' => t :: upd_thread i' f r end.
+(* one scheduling decision: thread tid performs its next call against the CURRENT shared graph *)
+Definition cstep (c : config) (tid : nat) : config :=
+  {| shared := shared c;
+     threads := upd_thread tid (fun t => match script t with [] => t | o :: rest => {| script := rest; results := results t ++ [evalf (shared c) o] |} end) (threads c) |}.
+Definition crun (c : config) (sched : list nat) : config := fold_left cstep sched c.
+Definition solo (g : G) (sc : list Q) : list R := map (evalf g) sc.
+End Generic.
+Arguments thread : clear implicits.
+Arguments config : clear implicits.
+
+Section Labelled.
 Variable hs : bool.
 Variable und : bool.            (* the shared object is a LabeledUndirectedGraph *)
 Notation dgraph := (@dgraph Z).
@@ -37,17 +56,19 @@ Definition eval (g : dgraph) (o : rop) : list (list Z) :=
   | RWriteText => io_err (fun b => [zbytes b]) (write_text V und 0 hs (fun z => to_string (Z.to_N z)) g)
   | RWriteBinary => [[0]]
   end.
-Record thread := { script : list rop; results : list (list (list Z)) }.
-Record config := { shared : dgraph; threads : list thread }.
-Fixpoint upd_thread (i : nat) (f : thread -> thread) (l : list thread) : list thread :=
-  match l, i with [], _ => [] | t :: r, O => f t :: r | t :: r, S i' => t :: upd_thread i' f r end.
-(* one scheduling decision: thread tid performs its next call against the CURRENT shared graph *)
-Definition cstep (c : config) (tid : nat) : config :=
-  {| shared := shared c;
-     threads := upd_thread tid (fun t => match script t with [] => t | o :: rest => {| script := rest; results := results t ++ [eval (shared c) o] |} end) (threads c) |}.
-Definition crun (c : config) (sched : list nat) : config := fold_left cstep sched c.
-Definition solo (g : dgraph) (sc : list rop) : list (list (list Z)) := map (eval g) sc.
-End Conc.
+End Labelled.
+
+(* ---- multigraph / weighted classes: observers, ==, Dijkstra distances (as Bellman-Ford computes them), BFS searches ---- *)
+Inductive mrop := MObserve | MEquals | MDijkstra (s : nat) | MPaths (s t : nat).
+Definition mobs (cls : nat) (m : mgraph) : list (list Z) :=          (* 0 DM, 1 UM, 2 DW, 3 UW *)
+  match cls with O => dm_observe repaired m | 1%nat => um_observe repaired m | 2%nat => dw_observe repaired m | _ => uw_observe repaired m end.
+Definition eval_m (cls : nat) (m : mgraph) (o : mrop) : list (list Z) :=
+  match o with
+  | MObserve => mobs cls m
+  | MEquals => [[zout zbool (graph_eqb Z.eqb (mg m) (mg m))]]
+  | MDijkstra s => [map zdist (bf_dist (if Nat.odd cls then uwadj_of (mg m) else wadj_of (mg m)) s)]
+  | MPaths s t => concat (path_case true true 5000 (adj (mg m)) s t)
+  end.
 
 (* ---- the correspondence case: T reader threads, R rounds of the whole script each, a round-robin schedule; reported: how many threads
    end with results other than their single-threaded ones (0 by ConcProofs.crun_solo - computed here, not assumed) ---- *)
@@ -58,7 +79,16 @@ Definition reader_script (R : nat) (so : list nat) (s t : nat) : list rop :=
 Definition conc_mismatches (hs und : bool) (g : @dgraph Z) (T R : nat) (so : list nat) (s t : nat) : Z :=
   let sc := reader_script R so s t in
   let c0 := {| shared := g; threads := repeat {| script := sc; results := [] |} T |} in
-  let c := crun hs und c0 (concat (repeat (seq 0 T) (length sc))) in
-  let ref := solo hs und g sc in
+  let c := crun (eval hs und) c0 (concat (repeat (seq 0 T) (length sc))) in
+  let ref := solo (eval hs und) g sc in
   Z.of_nat (length (filter (fun th => negb (match script th with [] => true | _ => false end && list_eqb (list_eqb (list_eqb Z.eqb)) (results th) ref)) (threads c)))
   + (match graph_eqb Z.eqb (shared c) g with Val true => 0 | _ => 1000 end).
+
+Definition mreader_script (R : nat) (s t : nat) : list mrop := concat (repeat [MObserve; MEquals; MDijkstra s; MDijkstra t; MPaths s t] R).
+Definition mconc_mismatches (cls : nat) (m : mgraph) (T R : nat) (s t : nat) : Z :=
+  let sc := mreader_script R s t in
+  let c0 := {| shared := m; threads := repeat {| script := sc; results := [] |} T |} in
+  let c := crun (eval_m cls) c0 (concat (repeat (seq 0 T) (length sc))) in
+  let ref := solo (eval_m cls) m sc in
+  Z.of_nat (length (filter (fun th => negb (match script th with [] => true | _ => false end && list_eqb (list_eqb (list_eqb Z.eqb)) (results th) ref)) (threads c)))
+  + (match graph_eqb Z.eqb (mg (shared c)) (mg m) with Val true => if Z.eqb (mtot (shared c)) (mtot m) then 0 else 1000 | _ => 1000 end).
